@@ -116,7 +116,7 @@ impl LangInterpreter for Italian {
             "ottav" if b.is_empty() => b.put(b"8"),
             "nove" | "novesim" if b.peek(2) != b"10" => b.put(b"9"),
             "non" if b.is_empty() && num_func != "non" => b.put(b"9"),
-            "dieci" | "decim" => b.put(b"10"),
+            "dieci" | "decim" | "diecesim" => b.put(b"10"),
             "undici" | "undicesim" => b.put(b"11"),
             "dodici" | "dodicesim" => b.put(b"12"),
             "tredici" | "tredicesim" => b.put(b"13"),
